@@ -4,7 +4,7 @@ operations sequence in Rust's evaluation order."""
 import re
 
 from r2c_parse import ParseError, INT_BITS, SINT_BITS, parse_expr_src, parse_type_tokens, parse_body_tokens, parse_params, lex, Parser
-from r2c_ir import Ret, Fail, ErrT, MonT, Bind, BindT, Let, If, Match, OBind, Fold, effectful, atom, inline, render, lpat
+from r2c_ir import Ret, Fail, ErrT, MonT, SetState, Bind, BindT, Let, If, Match, OBind, Fold, effectful, atom, inline, render, lpat
 
 MUTATING = {"pop", "push", "push_back", "pop_front", "insert", "remove", "clear", "entry", "truncate", "extend"}
 
@@ -16,6 +16,8 @@ def parse_type_src(s):
 def strip(t):
     while t[0] == "refmut":
         t = t[1]
+    if t[0] == "gnamed":
+        return ("named", t[1])
     if t[0] == "hole" and t[1][0] is not None:
         return strip(t[1][0])
     return t
@@ -58,12 +60,16 @@ class Ctx:
         self.allowed = list(allowed)
         self.retk = None
         self.in_loop = False
+        self.state = False          # translating a `&mut self` method of the state type in the state monad
+        self.skipvars = set()       # locals bound to metrics handles (never translated)
         self.allowed_stmts = []
         self.anyhow = {}     # anyhow message -> constructor of the model's error type
 
     def child(self, nested=None):
         c = Ctx(self.what, self.self_type, self.ret, self.binds, self.allowed)
         c.in_loop = self.in_loop
+        c.state = self.state
+        c.skipvars = self.skipvars
         c.allowed_stmts = self.allowed_stmts
         c.anyhow = self.anyhow
         c.vars = dict(self.vars)
@@ -257,6 +263,9 @@ class Translator:
             return "_", []
         if k == "pbind":
             return "v_" + p[1], [(p[1], "v_" + p[1], t)]
+        if k == "pat_at":
+            sub, vs = self.pat(p[2], t, ctx)
+            return f"({sub} as v_{p[1]})", vs + [(p[1], "v_" + p[1], t)]
         if k == "pbool":
             return ("true" if p[1] else "false"), []
         if k == "plit":
@@ -298,6 +307,8 @@ class Translator:
 
     # ---- expressions (CPS)
     def ex(self, e, ctx, k, hint=None, tail=False):
+        if hint is not None and self.dropped(hint):
+            return k("tt", hint)         # an argument of a type the model has no counterpart for (e.g. ctx::Ctx) is not translated
         for b in ctx.binds:
             if e == b["ast"]:
                 if b.get("eff"):
@@ -318,7 +329,7 @@ class Translator:
                 return k(acc)
 
             def got(v, t):
-                if strip(t)[0] == "result":
+                if strip(t)[0] in ("result", "hres"):
                     self.err(ctx, "a Result value used other than by `?`, map_err, context or as the return value")
                 acc.append((v, t))
                 return go(i + 1)
@@ -354,6 +365,10 @@ class Translator:
             self.err(ctx, f"literal {v} does not fit {bits} bits")
         return k(str(v), ("int", bits))
 
+    def ex_await(self, e, ctx, k, hint, tail):
+        # sequential code: awaiting a future that is polled to completion is transparent
+        return self.ex(e[1], ctx, k, hint, tail)
+
     def ex_str(self, e, ctx, k, hint, tail):
         self.err(ctx, "string literal outside ensure!/bail!/context is outside the subset")
 
@@ -378,6 +393,8 @@ class Translator:
         segs = e[1]
         if len(segs) == 1:
             n = segs[0]
+            if n in ctx.skipvars:
+                self.err(ctx, f"`{n}` is a metrics handle; its uses are not translated")
             if n in ctx.vars:
                 return k(*ctx.vars[n])
             if n == "None":
@@ -427,8 +444,16 @@ class Translator:
         self.n = saved
         self.active.pop()
 
+    def dropped(self, t):
+        sp = self.spec(t)
+        return bool(sp and sp["kind"] == "dropped")
+
     def emit_call(self, sig, vals, ctx, k):
-        if len(vals) != len(sig.params) + (1 if sig.has_self else 0):
+        ps = ([None] if sig.has_self else []) + list(sig.params)
+        if len(vals) == len(ps):
+            vals = [v for v, p in zip(vals, ps) if p is None or not self.dropped(p)]
+            ps = [p for p in ps if p is None or not self.dropped(p)]
+        if len(vals) != len(ps):
             self.err(ctx, f"call of {sig.coq}: wrong number of arguments")
         extra = []
         for x in sig.extra:
@@ -439,8 +464,15 @@ class Translator:
             expr = sig.template.format(*[atom(v) for v in vals])
         else:
             expr = " ".join([sig.coq] + (["chk"] if sig.eff else []) + [atom(v) for v in vals] + extra)
+        if sig.eff == "h" and not ctx.state:
+            self.err(ctx, f"call of {sig.coq or sig.template}, which acts on the replica state, outside a state function")
         if strip(sig.ret)[0] == "result":
+            if sig.eff == "h":
+                return k(atom(expr), ("hres", strip(sig.ret)[1]))
             return k(atom(expr), sig.ret)       # a pending computation: consumed by `?`, map_err or a return
+        if sig.eff == "h":
+            t = self.fresh()
+            return Bind(t, expr, k(t, sig.ret), h=True)
         if sig.eff:
             t = self.fresh()
             return Bind(t, expr, k(t, sig.ret))
@@ -569,6 +601,8 @@ class Translator:
             kind = t[0]
             if name in ("clone", "to_owned") and not args:
                 return k(r, t)
+            if kind == "named" and name == "into" and not args and self.spec(t) and (self.spec(t)["kind"] == "opaque" or self.spec(t).get("into")):
+                return k(r, t)          # conversions between wrappers of an opaque model value (Box<T>, T)
             if kind == "named":
                 sig = self.need_fn(t[1], name)
                 if sig is None:
@@ -576,6 +610,11 @@ class Translator:
                 if not sig.has_self:
                     self.err(ctx, f"{t[1]}::{name} is not a method")
                 return self.exs(args, ctx, lambda vs: self.emit_call(sig, [r] + [v for v, _ in vs], ctx, k), sig.params)
+            if kind in ("result", "hres") and name == "wrap" and len(args) == 1:
+                return k(r, t)          # error::Wrap only decorates the error
+            if kind in ("result", "hres") and name in ("expect", "unwrap"):
+                v = self.fresh()
+                return Bind(v, f"hexpect {r}" if kind == "hres" else f"rexpect {r}", k(v, t[1]), h=(kind == "hres"))
             if kind == "result":
                 if name == "map_err" and len(args) == 1:
                     f, et = self.err_fun(args[0], ctx, [t[2]])
@@ -623,6 +662,9 @@ class Translator:
                     return self.ex(args[0], ctx, lambda v, _t: k(f"(unwrap_or {r} {atom(v)})", unify(t[1], _t)), t[1])
                 if name in ("as_ref", "copied", "cloned", "as_deref") and not args:
                     return k(r, t)
+                if name == "is_none_or" and len(args) == 1:
+                    f, rt = self.closure(args[0], [t[1]], ctx)
+                    return k(f"(match {r} with Some x => {f} x | None => true end)", ("bool",))
                 if name == "is_some_and" and len(args) == 1:
                     f, rt, eff = self.closure_m(args[0], [t[1]], ctx)
                     if eff:
@@ -665,6 +707,31 @@ class Translator:
                     return k(f"(vec_enumerate {r})", ("list", ("tuple", [("int", 64), el])))
                 if kind == "map" and name == "into_values" and not args:
                     return k(f"(map snd {r})", ("list", t[3]))
+                if kind == "list" and name in ("min", "max") and not args and self.zlike(el):
+                    return k(f"(list_{name} {r})", ("option", el))
+                if kind == "map" and name == "split_off" and len(args) == 1 and t[1] == "BTreeMap" and self.zlike(t[2]):
+                    writer = self.place(recv, ctx)
+
+                    def got_sk(kv, kt):
+                        v = self.fresh()
+                        body = k(v, t)
+                        hi = f"filter (fun e => {atom(kv)} <=? fst e) {r}"
+                        if writer is None:
+                            return Let(v, hi, body)
+                        return Let(v, hi, writer(f"(filter (fun e => fst e <? {atom(kv)}) {r})", body))
+                    return self.ex(args[0], ctx, got_sk, t[2])
+                if kind == "map" and name == "remove" and len(args) == 1:
+                    writer = self.place(recv, ctx)
+
+                    def got_rk(kv, kt):
+                        kt2 = unify(t[2], kt)
+                        f = self.eqb(kt2, ctx)
+                        v = self.fresh()
+                        body = k(v, ("option", t[3]))
+                        if writer is None:
+                            return Let(v, f"bt_get {f} {r} {atom(kv)}", body)
+                        return Let(v, f"bt_get {f} {r} {atom(kv)}", writer(f"(bt_remove {f} {r} {atom(kv)})", body))
+                    return self.ex(args[0], ctx, got_rk)
                 if kind == "map" and name == "get" and len(args) == 1:
                     def got_gk(kv, kt):
                         kt2 = unify(t[2], kt)
@@ -685,6 +752,8 @@ class Translator:
                         v = self.fresh()
                         return Bind(v, f"filter_m {f} {r}", k(v, ("list", el)))
                     return k(f"(filter {f} {r})", ("list", el))
+                if kind == "list" and name == "contains" and len(args) == 1:
+                    return self.ex(args[0], ctx, lambda v, vt: k(f"(existsb ({self.eqb(unify(el, vt), ctx)} {atom(v)}) {r})", ("bool",)), el)
                 if kind == "list" and name == "count" and not args:
                     return k(f"(vec_len {r})", ("int", 64))
                 if kind == "list" and name == "sum" and not args and strip(el) == ("int", 64):
@@ -734,7 +803,9 @@ class Translator:
             if s and s["kind"] == "record" and name in s["fields"]:
                 if s["fields"][name][0] is None:
                     self.err(ctx, f"field .{name} of {t[1]} has no counterpart in the hand model (type table)")
-                proj, ft = s["fields"][name]
+                proj, ft = s["fields"][name][0], s["fields"][name][-1]     # (projection, source type[, type used by the model])
+                if proj.startswith("="):
+                    return k(proj[1:], parse_type_src(ft))
                 if "{0}" in proj:
                     return k("(" + proj.format(atom(r)) + ")", parse_type_src(ft))
                 return k(f"({proj} {atom(r)})", parse_type_src(ft))
@@ -821,6 +892,12 @@ class Translator:
                     f = self.eqb(t, ctx)
                     r = f"({av} =? {bv})" if f == "Z.eqb" else f"({f} {av} {bv})"
                     return k(r if op == "==" else f"(negb {r})", ("bool",))
+                if op in ("<", ">", "<=", ">=") and strip(t)[0] == "option" and self.spec(strip(t)[1]) and self.spec(strip(t)[1]).get("ge"):
+                    g = self.spec(strip(t)[1])["ge"]
+                    self.derives(strip(t)[1], "PartialOrd", ctx)
+                    r = {">=": f"(opt_ge {g} {av} {bv})", "<=": f"(opt_ge {g} {bv} {av})",
+                         "<": f"(negb (opt_ge {g} {av} {bv}))", ">": f"(negb (opt_ge {g} {bv} {av}))"}[op]
+                    return k(r, ("bool",))
                 if op in ("<", ">", "<=", ">="):
                     if not self.zlike(t):
                         self.err(ctx, f"ordering comparison on type {t} is outside the subset")
@@ -867,6 +944,9 @@ class Translator:
             # `?` on a Result in a Result-returning function: monadic bind (an Err propagates like a panic does)
             def got_r(m, t):
                 t = strip(t)
+                if t[0] == "hres":
+                    x = self.fresh()
+                    return Bind(x, m, k(x, t[1]), h=True)
                 if t[0] != "result":
                     self.err(ctx, "`?` on a non-Result in a Result-returning function")
                 x = self.fresh()
@@ -930,7 +1010,7 @@ class Translator:
             self.err(ctx, f"struct literal {nm} is outside the subset")
         if sorted(f for f, _ in fs) != sorted(s["fields"]):
             self.err(ctx, f"struct literal {nm}: fields differ from the type table")
-        hints = [parse_type_src(s["fields"][f][1]) for f, _ in fs]
+        hints = [parse_type_src(s["fields"][f][-1]) for f, _ in fs]
         if s.get("mk"):
             return self.exs([x for _, x in fs], ctx,
                             lambda vs: k("(" + s["mk"].format(**{f: atom(v) for (f, _), (v, _) in zip(fs, vs)}) + ")", ("named", nm)), hints)
@@ -993,6 +1073,35 @@ class Translator:
     def ex_block(self, e, ctx, k, hint, tail):
         return self.stmts(e[1], 0, e[2], ctx.child(), k, hint, tail)
 
+    # ---- places that can be updated: `let mut` locals and (in a state function) fields of self with a setter
+    def expr_root(self, e):
+        while isinstance(e, tuple) and e and e[0] in ("mcall", "field", "index", "unary", "await", "try", "cast"):
+            e = e[2] if e[0] == "unary" else e[1]
+        return e
+
+    def is_skipped(self, e, ctx):
+        """metrics / logging expressions are never translated"""
+        r = self.expr_root(e)
+        if isinstance(r, tuple) and r and r[0] == "path":
+            if "METRICS" in r[1] or r[1][0] in ("metrics", "tracing") or (len(r[1]) == 1 and r[1][0] in ctx.skipvars):
+                return True
+        return isinstance(r, tuple) and r and r[0] == "macro" and r[1] == "tracing"
+
+    def place(self, e, ctx):
+        """-> (reader expression AST, writer(newval, rest) -> Term) or None"""
+        if e[0] == "unary" and e[1] in ("&", "*"):
+            return self.place(e[2], ctx)
+        if e[0] == "path" and len(e[1]) == 1 and e[1][0] in ctx.mut:
+            name = e[1][0]
+            cq = ctx.vars[name][0]
+            return lambda v, rest: Let(cq, v, rest)
+        if ctx.state and e[0] == "field" and e[1] == ("path", ["self"]):
+            sp = self.tget(ctx.self_type)
+            st = sp.get("setters", {}).get(e[2]) if sp else None
+            if st:
+                return lambda v, rest: SetState(st.format(s="s", v=atom(v)), rest)
+        return None
+
     # ---- statements
     def state_pat(self, names, ctx):
         cs = [ctx.vars[n][0] for n in names]
@@ -1014,6 +1123,11 @@ class Translator:
         def rest():
             return self.stmts(ss, i + 1, tailexpr, ctx, k, hint, tail)
         if s in ctx.allowed_stmts:
+            return rest()
+        if s[0] == "let" and self.is_skipped(s[3], ctx) and s[1][0] == "pbind":
+            ctx.skipvars.add(s[1][1])
+            return rest()
+        if s[0] == "expr" and self.is_skipped(s[1], ctx):
             return rest()
         if s[0] == "let":
             _, p, ty, init, els, mut = s
@@ -1037,7 +1151,7 @@ class Translator:
                         ctx.mut.add(name)
                     else:
                         ctx.mut.discard(name)
-                    if re.match(r"^\w+$", v) and not v.isdigit() and not mut and v not in ("true", "false", "None"):
+                    if re.match(r"^\w+$", v) and not v.isdigit() and not mut and v not in ("true", "false", "None") and not ctx.binds:
                         ctx.vars[name] = (v, t)
                         return rest()
                     ctx.vars[name] = ("v_" + name, t)
@@ -1062,6 +1176,8 @@ class Translator:
             name, args = e[1], e[2]
             if name in ("unreachable", "panic"):
                 return Fail("PUnreachable")
+            if name == "tracing":
+                return rest()
             if name in ("assert", "debug_assert") and len(args) >= 1:
                 if name == "debug_assert":
                     # debug assertions are on exactly in the profile that has overflow checks on (cargo dev / release)
@@ -1082,6 +1198,23 @@ class Translator:
             return self.stmt_for(e, ctx, rest)
         if e[0] == "assign":
             return self.stmt_assign(e, ctx, rest)
+        if e[0] == "mcall" and e[2] in ("retain", "insert") and self.place(e[1], ctx) and not (
+                e[2] == "insert" and e[1][0] == "path"):
+            writer = self.place(e[1], ctx)
+
+            def got_m(m, mt):
+                mt = strip(mt)
+                if mt[0] != "map":
+                    self.err(ctx, f"{e[2]} on something that is not a map")
+                if e[2] == "retain":
+                    f, _ = self.closure(("closure", [("ptuple", e[3][0][1])], e[3][0][2]) if e[3][0][0] == "closure" else e[3][0],
+                                        [("tuple", [mt[2], mt[3]])], ctx)
+                    return writer(f"(filter {f} {atom(m)})", rest())
+                if mt[1] != "BTreeMap" or not self.zlike(mt[2]):
+                    self.err(ctx, "insert into a map that is not a BTreeMap with integer-ordered keys")
+                return self.exs(e[3], ctx, lambda vs: writer(f"(bt_insert Z.ltb Z.eqb {atom(m)} {atom(vs[0][0])} {atom(vs[1][0])})", rest()),
+                                [mt[2], mt[3]])
+            return self.ex(e[1], ctx, got_m)
         if (e[0] == "mcall" and e[2] == "insert" and len(e[3]) == 2 and e[1][0] == "path" and len(e[1][1]) == 1
                 and e[1][1][0] in ctx.mut and strip(ctx.vars[e[1][1][0]][1])[0] == "map"):
             name = e[1][1][0]
@@ -1099,8 +1232,15 @@ class Translator:
                 ctx.vars[name] = (cq, ("map", "BTreeMap", kt2, vt2))
                 return Let(cq, f"bt_insert Z.ltb Z.eqb {cq} {atom(kv)} {atom(vv)}", rest())
             return self.exs(e[3], ctx, got_kv)
-        if e[0] in ("block", "try"):
+        if e[0] in ("block", "try", "match"):
             return self.ex(e, ctx, lambda v, t: rest())
+        if e[0] in ("mcall", "call", "await"):
+            # a call evaluated for its effect (every callee is translated or a table entry, so the effect is known)
+            def discard(v, t):
+                if strip(t)[0] in ("result", "hres"):
+                    self.err(ctx, "a Result is computed and dropped without `?` / expect")
+                return rest()
+            return self.ex(e, ctx, discard)
         if e in ctx.allowed:
             return rest()
         self.err(ctx, f"statement `{e[0]} {e[2] if e[0] == 'mcall' else ''}` is outside the subset "
@@ -1191,6 +1331,15 @@ class Translator:
 
     def stmt_assign(self, e, ctx, rest):
         op, lhs, rhs = e[1], e[2], e[3]
+        if ctx.state and lhs[0] == "field" and lhs[1] == ("path", ["self"]):
+            sp = self.tget(ctx.self_type)
+            if lhs[2] in sp.get("ignored_assign", []):
+                return rest()        # a field the model does not have (timers): the assignment is not translated
+            writer = self.place(lhs, ctx)
+            if writer is None or op != "=":
+                self.err(ctx, f"assignment to self.{lhs[2]}: no setter in the type table")
+            ft = parse_type_src(sp["fields"][lhs[2]][-1])
+            return self.ex(rhs, ctx, lambda v, vt: writer(v, rest()), ft)
         if lhs[0] == "path" and len(lhs[1]) == 1 and lhs[1][0] in ctx.mut:
             name = lhs[1][0]
             cq, t = ctx.vars[name]
@@ -1223,7 +1372,7 @@ class Translator:
 
     # ---- definitions
     def define_fn(self, what, self_type, coq_name, params, ret, body_ast, binds=(), allowed=(), as_expr=False, state=(),
-                  anyhow=None, err_coq=None, extra=(), allowed_stmts=()):
+                  anyhow=None, err_coq=None, extra=(), allowed_stmts=(), state_fn=False):
         """params: [(rust name, type)] (including self if wanted). Returns Sig.
         state: names of parameters that are updated in place (fields of `&mut self` read as locals); the
         definition then returns their final values (the Rust function must return ())."""
@@ -1237,12 +1386,19 @@ class Translator:
         ctx.anyhow = dict(anyhow or {})
         ctx.allowed_stmts = list(allowed_stmts)
         is_res = strip(ret)[0] == "result"
+        params = [(n, t) for n, t in params if not self.dropped(t)]
+        if state_fn:
+            ctx.state = True
+            ctx.vars["self"] = ("s", ("named", self_type))
 
         def retk(v, t):
             if is_res:
-                if strip(t)[0] != "result":
+                if strip(t)[0] not in ("result", "hres"):
                     self.err(ctx, "a Result-returning function returning a non-Result value")
-                unify(ret, t)
+                if strip(t)[0] == "result":
+                    unify(ret, t)
+                if strip(t)[0] == "hres":
+                    return MonT(v, h=True)
                 if v.startswith("(Ok ") and v.endswith(")"):
                     return Ret(v[4:-1])
                 if v.startswith("(Err ") and v.endswith(")"):
@@ -1263,6 +1419,13 @@ class Translator:
         else:
             term = self.stmts(body_ast[1], 0, body_ast[2], ctx, retk, ret, True)
         eff = effectful(term) or is_res
+        if state_fn:
+            args = " ".join(("(s : " + self.coq_type(t) + ")") if n == "self" else f"(v_{n} : {self.coq_type(t)})"
+                            for n, t in list(params) + list(extra))
+            rt = self.coq_type(strip(ret)[1]) if is_res else self.coq_type(ret)
+            head = f"Definition {coq_name} (chk : bool) {args} : hres {atom(rt)} :="
+            self.out.append((coq_name, head.replace("  ", " ") + "\n" + render(term, "h", 1) + "."))
+            return "h"
         args = " ".join(f"(v_{n} : {self.coq_type(t)})" for n, t in list(params) + list(extra))
         if is_res:
             et = strip(ret)[2]
